@@ -164,8 +164,8 @@ def run(ctx):
             ctx.report("C15-fallback", "eval_ast/return", "the re-located error is not what eval_ast returns", where_of(ea))
     # choke point: callers
     # (eval_ast may also do the work of its helper itself: the statement-level rows above decide whether the fallback is then applied)
-    for target, allowed in ((eed.name, {inner.name, ITP + "eval_library_definition"} | ({ea.name} if d_st >= 6 else set())), (inner.name, {ea.name}),
-                            (ea.name, {ITP + "eval_root_ast"})):
+    for target, allowed in ((eed.name, {inner.name, ITP + "eval_library_definition"} | ({ea.name} if d_st >= 6 else set())), (inner.name, {ea.name})):
+        # (eval_ast itself applies the fallback: whoever calls it goes through it)
         callers_of = fb.callers("lib")
 
         def ok_caller(name, depth=4):
